@@ -83,6 +83,50 @@ Theorem C18_text_unmarshal_only_valid : forall parse n fs w,
 Proof. exact unmarshal_fields_only_valid. Qed.
 Print Assumptions C18_text_unmarshal_only_valid.
 
+(** A bound whose text reads (exact decimal milliseconds, nothing cut before
+    the scaling to nanoseconds) as something that is not a whole number of
+    minutes (off by a fraction of a millisecond, say) makes the decoder
+    reject the document, whatever the other days say.  Likewise for the YAML
+    duration texts. *)
+Theorem C18_json_fraction_rejected : forall days d s e vs ve,
+  nth_error days d = Some (Some (s, e)) ->
+  parse_ms_text s = Some vs -> parse_ms_text e = Some ve ->
+  vs mod ns_min <> 0 \/ ve mod ns_min <> 0 ->
+  exists err, unmarshal_json_text days = inl err.
+Proof. exact json_fraction_rejected. Qed.
+Print Assumptions C18_json_fraction_rejected.
+
+Theorem C18_yaml_fraction_rejected : forall days d s e vs ve,
+  nth_error days d = Some (Some (s, e)) ->
+  parse_duration s = inr vs -> parse_duration e = inr ve ->
+  vs mod ns_min <> 0 \/ ve mod ns_min <> 0 ->
+  exists err, unmarshal_yaml_text days = inl err.
+Proof. exact yaml_fraction_rejected. Qed.
+Print Assumptions C18_yaml_fraction_rejected.
+
+(** More generally: any day whose two texts read as a range outside the
+    documented ones. *)
+Theorem C18_text_day_rejected : forall parse days d s e a b,
+  nth_error days d = Some (Some (s, e)) ->
+  parse s = inr a -> parse e = inr b ->
+  ~ range_ok {| dr_start := a; dr_end := b |} ->
+  exists err, unmarshal_fields parse (length days) (flatten_days 0 days) = inl err.
+Proof. exact text_day_rejected. Qed.
+Print Assumptions C18_text_day_rejected.
+
+(** Non-vacuity: "120000.5" is 120000500000 ns;
+    {"mon":{"start":60000,"end":120000.5}} and
+    {"sun":{"start":0,"end":86400000.5}} are rejected. *)
+Example C18_json_fraction_examples :
+  parse_ms_text txt_120000_5 = Some 120000500000 /\
+  120000500000 mod ns_min <> 0 /\
+  unmarshal_json_text [None; Some (txt_60000, txt_120000_5); None; None; None; None; None]
+    = inl (TRange 1 EEndNotMin) /\
+  unmarshal_json_text [Some (txt_0, txt_86400000_5); None; None; None; None; None; None]
+    = inl (TRange 0 EEndGtMax).
+Proof. exact json_fraction_examples. Qed.
+Print Assumptions C18_json_fraction_examples.
+
 Theorem C18_unmarshal_only_valid : forall l w,
   unmarshal_ranges l = inr w -> w = l /\ weekly_ok w.
 Proof. exact unmarshal_accepts_only_valid. Qed.
